@@ -21,7 +21,9 @@ POOL = ["http://example.com", "http://example.com/", "http://u:p@example.com:808
         "http://bücher.example/straße", "http://[fe80::1%25eth0]:80/", "http://example.com/a;p=1/b;q", "HTTP://EXAMPLE.com/%7efoo",
         "http://example.com/?a=1&b=2&a=3#f", "http://h/a/../b/./c", "//example.com/a", "http://1.2.3.4:0/", "http://Ab_c.é.com/x",
         "http://example.com:443/x", "https://example.com:80/", "ws://u@example.com:443", "ftp://example.com:80/a",
-        "http://h/a%2Fb", "http://h/a%25b/c%2Fd?x=0.0", "http://example.com.:8080/p"]
+        "http://h/a%2Fb", "http://h/a%25b/c%2Fd?x=0.0", "http://example.com.:8080/p",
+        # pairs (a, str(a)): the printed form of the first is the text of the second
+        "http://example.com/x", "https://example.com/", "https://example.com:443/", "ws://u@example.com"]
 READ_FIELDS = [f for f in ALL_FIELDS if f not in ("val",)]
 # raw components that end in a truncated escape run / begin with a continuation byte / contain malformed escapes: reading one
 # right after another must not carry decoder state over (process-global quoter and unquoter objects are shared)
